@@ -49,3 +49,114 @@ def des_trace(block8, ks, decrypt=False, l0r0=None):
         L, R = R, nR
     pre = R + L
     return tr, pre, pack(perm(pre, FP))
+
+
+# ------------------------------------------------------------------------------------------------
+# convenience API used by the checks
+def words(bl, n):
+    """bit list -> list of n-bit words"""
+    return pack(bl, n)
+
+
+def split_keys(key):
+    """8/16/24 master bytes -> list of three 16x48-bit schedules (EDE order K1,K2,K3)"""
+    ks = [schedule(key[i:i + 8]) for i in range(0, len(key), 8)]
+    if len(ks) == 1:
+        return ks
+    if len(ks) == 2:
+        return [ks[0], ks[1], ks[0]]
+    return ks
+
+
+def expanded_to_schedules(exp):
+    """128/256/384 expanded bytes (16 rounds x 8 six-bit words per DES) -> list of schedules as bit lists"""
+    out = []
+    for i in range(0, len(exp), 128):
+        part = exp[i:i + 128]
+        out.append([bits(part[8 * r:8 * r + 8], 6) for r in range(16)])
+    if len(out) == 2:
+        out = [out[0], out[1], out[0]]
+    return out
+
+
+def schedule_words(key8):
+    """scared format of a DES key schedule: 16 x 8 six-bit words"""
+    return [pack(k, 6) for k in schedule(key8)]
+
+
+def passes(schedules, mode):
+    """list of (schedule, decrypt_flag) in execution order for DES/TDES EDE"""
+    if len(schedules) == 1:
+        return [(schedules[0], mode == 'decrypt')]
+    k1, k2, k3 = schedules
+    if mode == 'encrypt':
+        return [(k1, False), (k2, True), (k3, False)]
+    return [(k3, True), (k2, False), (k1, True)]
+
+
+def crypt(block8, schedules, mode):
+    b = list(block8)
+    for ks, dec in passes(schedules, mode):
+        _, _, b = des_trace(b, ks, decrypt=dec)
+    return b
+
+
+def stop_point(block8, schedules, mode, at_des, rnd, step):
+    """Intermediate value scared documents for (at_des, at_round, after_step), in scared's word format."""
+    b = list(block8)
+    ps = passes(schedules, mode)
+    for ks, dec in ps[:at_des]:
+        _, _, b = des_trace(b, ks, decrypt=dec)
+    ks, dec = ps[at_des]
+    tr, pre, out = des_trace(b, ks, decrypt=dec)
+    t = tr[rnd]
+    if step == 0:
+        return pack(t['L'] + t['R'])
+    if step == 1:
+        return pack(t['E'], 6)
+    if step == 2:
+        return pack(t['A'], 6)
+    if step == 3:
+        return pack(t['S'], 4)
+    if step == 4:
+        return pack(t['P'] + [0] * 32)
+    if step == 5:
+        return pack(t['nR'] + t['R'])
+    if step == 6:
+        return pack(t['nL'] + t['nR'])
+    if step == 7:
+        return pack(invP(t['nR']), 4)
+    if step == 8:
+        return pack(invP(xor(t['R'], t['nR'])), 4)
+    if step == 9:
+        if rnd < 15:
+            return pack(t['nL'] + t['nR'])
+        return out
+    raise ValueError(step)
+
+
+VECTORS = [
+    # classic worked example and NBS/SP 800-17 style vectors: (key, plaintext, ciphertext)
+    ('133457799bbcdff1', '0123456789abcdef', '85e813540f0ab405'),
+    ('0101010101010101', '8000000000000000', '95f8a5e5dd31d900'),
+    ('0101010101010101', '4000000000000000', 'dd7f121ca5015619'),
+    ('8001010101010101', '0000000000000000', '95a8d72813daa94d'),
+    ('7ca110454a1a6e57', '01a1d6d039776742', '690f5b0d9a26939b'),
+    ('0131d9619dc1376e', '5cd54ca83def57da', '7a389d10354bd271'),
+]
+
+
+def selftest():
+    import json
+    import os
+    for k, p, c in VECTORS:
+        k, p, c = bytes.fromhex(k), bytes.fromhex(p), bytes.fromhex(c)
+        assert bytes(crypt(p, split_keys(k), 'encrypt')) == c, 'DES encrypt vector'
+        assert bytes(crypt(c, split_keys(k), 'decrypt')) == p, 'DES decrypt vector'
+    n = 0
+    with open(os.path.join(os.path.dirname(__file__), 'kat', 'des.json')) as f:
+        for k, p, c in json.load(f):
+            k, p, c = bytes.fromhex(k), bytes.fromhex(p), bytes.fromhex(c)
+            assert bytes(crypt(p, split_keys(k), 'encrypt')) == c and bytes(crypt(c, split_keys(k), 'decrypt')) == p, 'KAT mismatch'
+            n += 1
+    return 'des-ref-ok(%d kat)' % n
